@@ -54,7 +54,14 @@ def r1_context_manager(ctx):
     ok = any(d.split(".")[-1] == "contextmanager" for d in f.decorators)
     ctx.check(ok, c + "#decorator", "is a contextmanager" if ok else "set_random_seed is no longer a context manager", where=f, node=f.node)
     p = f.params[0]
-    g = ctx.cfg(f, all_raise=True)
+    from sa.cfg import CFG
+
+    rebound = any(isinstance(n_, ast.Name) and n_.id == p and isinstance(n_.ctx, (ast.Store, ast.Del)) for n_ in ast.walk(f.node))
+    # decided separately for "a seed is given" and "no seed": every test of exactly that (pure) predicate takes
+    # the matching branch - the parameter is never re-bound, so tests of it written in several places agree
+    seeded_assume = {} if rebound else {f"{p} is not None": True, f"{p} is None": False, f"not {p} is None": True}
+    g = CFG(f.node, all_raise=True, assume=seeded_assume)
+    g_un = CFG(f.node, all_raise=True, assume={k: not v for k, v in seeded_assume.items()}) if seeded_assume else g
     calls = [(cl, _ext(ctx, f, cl)) for cl in calls_in(f.node)]
     gets = [cl for cl, e in calls if e == "numpy.random.get_state"]
     seeds = [cl for cl, e in calls if e == "numpy.random.seed"]
@@ -105,12 +112,23 @@ def r1_context_manager(ctx):
         ctx.fail(c + "#yield", "no yield after seeding", where=f, node=f.node)
     lo, hi = g.count_events(g.entry, [g.exit_return], yn)
     ctx.check((lo, hi) == (1, 1), c + "#one-yield", "exactly one yield on every normal path" if (lo, hi) == (1, 1) else f"between {lo} and {hi} yields on a normal path", where=f, node=yields[0] if yields else f.node)
-    # unseeded path: yields reachable without passing seed() must not be preceded by any RNG call
-    for n in yn:
-        if n in seeded_yields:
-            continue
-        touched = [m for m in gn + rn + sn if g.all_paths_pass(g.entry, [n], [m], "nx")]
-        ctx.check(not touched, c + "#unseeded", "unseeded path leaves the generator alone" if not touched else "the generator is touched although no seed was given", where=f, node=n.ast)
+    # unseeded run: no RNG call is reachable at all, and it yields exactly once
+    def nodes_un(call):
+        return [n for n in g_un.nodes if n.ast is not None and n.kind in ("stmt", "with") and contains(n.ast, call) and not isinstance(n.ast, (ast.If, ast.Try, ast.For, ast.While))]
+
+    if g_un is not g:
+        live = g_un.live_nodes("nx")
+        touched = [m for cl in gets + seeds + sets for m in nodes_un(cl) if m in live]
+        ctx.check(not touched, c + "#unseeded", "without a seed the generator is left alone" if not touched else "the generator is touched although no seed was given", where=f, node=touched[0].ast if touched else f.node)
+        yu = [n for y in yields for n in nodes_un(y)]
+        lo_u, hi_u = g_un.count_events(g_un.entry, [g_un.exit_return], yu)
+        ctx.check((lo_u, hi_u) == (1, 1), c + "#one-yield-unseeded", "exactly one yield without a seed" if (lo_u, hi_u) == (1, 1) else f"between {lo_u} and {hi_u} yields when no seed is given", where=f, node=yields[0] if yields else f.node)
+    else:
+        for n in yn:
+            if n in seeded_yields:
+                continue
+            touched = [m for m in gn + rn + sn if g.all_paths_pass(g.entry, [n], [m], "nx")]
+            ctx.check(not touched, c + "#unseeded", "unseeded path leaves the generator alone" if not touched else "the generator is touched although no seed was given", where=f, node=n.ast)
 
 
 ALLOWED_STATE = {SRS: "the one owner of the process-wide generator state"}
@@ -226,12 +244,12 @@ def r3_mode_seed_reaches_pipeline(ctx):
     ok = bool(gs) and bool(arch)
     if ok:
         a = arg_or_kw(gs[0], 0, "seed")
-        ok = a is not None and dotted(a) in ("self.pygmo_seed", "self._pygmo_seed")
+        ok = a is not None and dotted(expand(rc, a)) in ("self.pygmo_seed", "self._pygmo_seed")
         gn = [n for n in g.nodes if n.ast is not None and n.kind == "stmt" and contains(n.ast, gs[0])]
         an = [n for n in g.nodes if n.ast is not None and n.kind == "stmt" and contains(n.ast, arch[0])]
         ok = ok and all(g.must_precede(gn, x) for x in an)
         pk = kw(arch[0], "pygmo_seed")
-        ok = ok and pk is not None and dotted(pk) in ("self.pygmo_seed", "self._pygmo_seed")
+        ok = ok and pk is not None and dotted(expand(rc, pk)) in ("self.pygmo_seed", "self._pygmo_seed")
     ctx.check(ok, rc.qual + "#pygmo-seed", "pygmo seeded globally with self.pygmo_seed before the archipelago is built, and handed to it" if ok else "the optimiser seed is not installed before / not handed to the archipelago", where=rc, node=gs[0] if gs else rc.node)
     b = ctx.func("pyxel.calibration.archipelago_datatree:ArchipelagoDataTree._build")
     sts = [st for st, t in stores(b.node, lambda t: isinstance(t, ast.Name) and t.id == "seeds")]
